@@ -22,7 +22,7 @@ def fieldless(spec):
 
 
 def check(run):
-    deps, vmon = setup(run, cfgs=("phf",))
+    deps, vmon = setup(run, cfgs=("phf", "nostdphf"))
     thorough = run.tier == "thorough"
     specs = []
     for s in c12.systematic():
@@ -67,6 +67,17 @@ def check(run):
         spec_by_unit[uq.name] = p
     samples.update(standard_flow(run, runits, deps["phf"], vmon, profiles=("fast",), tag="c16r", extern_name="renamed"))
     units = units + runits
+    nunits = []
+    for i in range(100 if thorough else 24):
+        s = strgen.build(r, "Q%d" % i, ["EnumString"], fieldless=True, naming_bias=0.75, max_n=5, capture_types=["String"])
+        p = copy.deepcopy(s)
+        p.use_phf = True
+        for sp_, tag_ in ((s, "plain"), (p, "phf")):
+            u = shards.Unit("u_" + sp_.name.lower() + "_" + tag_, c01.glue(sp_), meta={"enum_src": sp_.render()}, sig="nostd-strum,%s,%s" % (tag_, s.signature()), head=strgen.CAPTURE_HEAD)
+            nunits.append(u)
+            spec_by_unit[u.name] = sp_
+    samples.update(standard_flow(run, nunits, deps["nostdphf"], vmon, profiles=("fast",), tag="c16n"))
+    units = units + nunits
     c01.offline_recheck(run, samples, spec_by_unit)
     pick_samples(run, samples, {u.name: u for u in units})
     run.extra["programs"] = len(units)
